@@ -59,8 +59,9 @@ def base_confs(a_over=None, b_over=None, a_entry=None, b_entry=None):
 ADDRS2 = {'A': [IP_A], 'B': [IP_B]}
 
 
-def new_world(confs=None, addrs=None, **kw):
-    return World(confs or base_confs(), addrs or ADDRS2, **kw)
+def new_world(confs=None, addrs=None, cls=None, **kw):
+    """cls: World (one pass of main_loop per call, copyable) or harness.continuous.ContinuousWorld (loop never left)"""
+    return (cls or World)(confs or base_confs(), addrs or ADDRS2, **kw)
 
 
 def established(confs=None, initiator='A', addrs=None, **kw):
